@@ -296,8 +296,12 @@ SB_extends(SB* self, PyObject* other)
         return NULL;
     }
 
-    if (PyDict_GetItem(implied, other) != NULL)
+    /* Don't swallow an error raised while hashing or comparing *other*
+       (the Python implementation propagates it). */
+    if (PyDict_GetItemWithError(implied, other) != NULL)
         Py_RETURN_TRUE;
+    if (PyErr_Occurred())
+        return NULL;
     Py_RETURN_FALSE;
 }
 
